@@ -138,19 +138,5 @@ def run(repo: Repo, rep: Report, tier: str) -> None:
         reach = cfg.reaches_avoiding(cs[0], {id(apps[0])}, lambda n: n is loop, start_inclusive=False)
         ok = not reach
     rep.check(ok, "C02-R3", "a constant member is listed once (constant part only)", "`continue` after the constant store" if ok else "a constant member also reaches the computed list: it is emitted twice and summed on the wire", bl.loc(cs[0]) if cs else bl.loc())
-    ib = repo.func("SemanticAnalyzer._infer_bundle_literal_type")
-    n_br = 0
-    for n in walk_local(ib.node):
-        if isinstance(n, ast.If) and norm(n.test).startswith("isinstance(element_type,") and ("SignalValue" in norm(n.test) or "BundleValue" in norm(n.test)):
-            n_br += 1
-            body = n.body
-            kind = "SignalValue" if "SignalValue" in norm(n.test) else "BundleValue"
-            adds = [x for s in body for x in ast.walk(s) if isinstance(x, ast.Call) and call_name(x) in ("add", "update") and "signal_types" in norm(x.func)]
-            recs = [x for s in body for x in ast.walk(s) if isinstance(x, ast.Subscript) and isinstance(x.ctx, ast.Store) and norm(x.value) == "seen_signals"]
-            tests = [x for s in body for x in ast.walk(s) if (isinstance(x, ast.Compare) and isinstance(x.ops[0], ast.In) and norm(x.comparators[0]) == "seen_signals") or
-                     (isinstance(x, ast.BinOp) and isinstance(x.op, ast.BitAnd) and "seen_signals" in norm(x))]
-            errs = [x for s in body for x in ast.walk(s) if isinstance(x, ast.Call) and isinstance(x.func, ast.Attribute) and x.func.attr == "error"]
-            ok = bool(adds) and bool(recs) and bool(tests) and bool(errs)
-            rep.check(ok, "C02-R3", f"bundle literal check, {kind} members: tested against and recorded in the seen-map",
-                      f"adds:{len(adds)} records:{len(recs)} tests:{len(tests)} errors:{len(errs)}" + ("" if ok else ": members contributed by this branch escape duplicate detection, so a later duplicate is accepted and the values are summed"), ib.loc(n))
-    rep.floor("C02-R3", "member-contributing branches", n_br, 2)
+    from .shared import bundle_literal_sibling_branches
+    bundle_literal_sibling_branches(repo, rep, "C02-R3")
